@@ -12,7 +12,9 @@ RENAME = {"R2B1": ("C05c", "C05"), "R2B3": ("C15c", "C15"), "R2A2": ("C04c", "C0
           "R4A1": ("C07c", "C07"), "R4A2": ("C14d", "C14"), "R4A3": ("C04d", "C04"), "R4B1": ("C04e", "C04"), "R4B2": ("C01c", "C01"),
           "R4B3": ("C15f", "C15"), "R4C1": ("C11d", "C11"), "R4C2": ("C13e", "C13"), "R4C3": ("C07d", "C07"),
           "R5A1": ("C15g", "C15"), "R5A2": ("C18c", "C18"), "R5A3": ("C16c", "C16"), "R5B1": ("C17d", "C17"), "R5B2": ("C01d", "C01"),
-          "R5B3": ("C02c", "C02"), "R5C1": ("C05e", "C05"), "R5C2": ("C12d", "C12"), "R5C3": ("C11e", "C11")}
+          "R5B3": ("C02c", "C02"), "R5C1": ("C05e", "C05"), "R5C2": ("C12d", "C12"), "R5C3": ("C11e", "C11"),
+          "R6A1": ("C05f", "C05"), "R6A2": ("C08c", "C08"), "R6A3": ("C11f", "C11"), "R6B1": ("C09d", "C09"), "R6B2": ("C08d", "C08"),
+          "R6B3": ("C13f", "C13"), "R6C1": ("C13g", "C13"), "R6C2": ("C14e", "C14"), "R6C3": ("C04f", "C04")}
 NEEDS = {
  "C01a": "is_callable_above_mark rewritten with position() (bottom-most MARK): needs nested MARKs with a callable right above the lower one and OBJ chosen with a bare MARK on top, then fixed-arity pops; ~1 in 1e5 PRNG pickles",
  "C01b": "STACK_GLOBAL guard relaxed whenever an installed mutator reports is_unsafe(): needs protocol 4/5, safe mode, the typeconfusion mutator registered",
@@ -80,6 +82,15 @@ NEEDS = {
  "R5C1": "with buffer opcodes on, BINBYTES8/BYTEARRAY8 payloads >= 16 bytes are replaced by a directly emitted NEXT_BUFFER (bypassing table and guard): protocol 4 gets a protocol-5 opcode: needs protocol 4 and allow_buffer",
  "R5C2": "can_emit(NEWOBJ_EX) demands a dict with a string key (any instead of all): an empty kwargs dict is rejected: NEWOBJ_EX practically unreachable: visible only as a seed search",
  "R5C3": "MAX_STACK_DEPTH = 1000 breaks the body loop: fewer than min_opcodes body opcodes: needs an opcode range of ~2000 or more",
+ "R6A1": "the 'this protocol opens with PROTO' decision becomes a flag set only in State::new: Generator::default() (or struct update from it) yields protocol >= 2 pickles without PROTO: needs that construction path",
+ "R6A2": "emit_int caches the protocol's integer opcodes per generator and never invalidates: needs a generation, then state.version lowered through the public field, then another generation",
+ "R6A3": "the dead with_buffer_size knob is honoured by stopping the body at that many output bytes: needs with_buffer_size(n) with small n",
+ "R6B1": "bufsize used as output.reserve(size): with_buffer_size(usize::MAX) panics with capacity overflow (around 1<<40 the process aborts): needs that knob set to an unallocatable value",
+ "R6B2": "emit_int caches the integer-opcode list in a Generator field on first use: needs generate, change state.version through the public field, generate again (written independently of R6A2 by another agent)",
+ "R6B3": "action wrapper builds one command string from ${args[*]} and runs it unquoted: needs an output path with whitespace or a glob character",
+ "R6C1": "batch mode writes through OpenOptions without truncate: needs --dir pointing at a directory that already holds longer same-named files (written independently of R4C2)",
+ "R6C2": "Stack::push records release handles for List, Dict and Instance only (Set forgotten): needs protocol >= 4 and a set that contains itself through a memoised tuple: EMPTY_SET DUP TUPLE1 MEMOIZE POP MARK BINGET 0 ADDITEMS",
+ "R6C3": "EXT2 code computed as (u32::from(gen_u16()) + 1) as u16: wraps 0xFFFF to 0 (a panic from the existing debug_assert in debug builds): needs EXT enabled and the 16-bit draw 0xFFFF",
  "R2A3": "fuzzer-mode gen_unit_f64 = bits / u64::MAX, exactly 1.0 for bits >= 0xFFFFFFFFFFFFFC00: needs fuzzer-bytes mode, rate 1.0 and eight gate bytes above that threshold",
 }
 for d in sorted(NEEDS):
